@@ -32,6 +32,9 @@ def run(ck, ctx):
                      "of a bulk string covers payload + terminator (a proper prefix is never a protocol error)")
     ck.rule("R15.6", "release profile: panic = abort is recorded (it turns any decoder panic into a server crash); reply encoders "
                      "index scratch buffers only with bounds that cover the longest decimal i64")
+    ck.rule("R15.7", "hand-written signed decimal parsers cover the whole range: a helper that turns wire digits into a signed integer does "
+                     "not accumulate the magnitude in that same signed type and negate it afterwards (the minimum value, which every encoder "
+                     "emits for Integer(i64::MIN), has no positive counterpart and would be rejected)")
     ck.nd("prefix-stability and encode/decode identity for all values (needs execution or proof)")
     ck.assume("a dominating comparison against the input length is taken as a bound (its strength is not proven)")
     for cfg in ctx.configs:
@@ -39,20 +42,63 @@ def run(ck, ctx):
         ck.configs.append(cfg)
         ck.fn_count += len(prog.fns)
         _taint_rules(ck, prog, cfg)
+        _r157(ck, prog, cfg)
         _r155(ck, prog, cfg)
     _r156(ck, ctx)
+
+
+INTISH = re.compile(r"^(std::result::Result<|std::option::Option<)?(i64|u64|usize|i32|u32|isize)\b")
+_derived = {}
+
+
+def derived_sources(prog):
+    """ids of local helper functions (in the decoder files) that turn wire bytes into an integer: they return an integer-like
+    value and either contain a primitive source themselves (transitively) or accumulate decimal digits (`* 10`)."""
+    key = id(prog)
+    if key in _derived:
+        return _derived[key]
+    out = set()
+    cands = [f for f in _scope(prog) if f.kind in ("fn", "method") and f.locals and INTISH.match(f.locals[0] if isinstance(f.locals[0], str) else "")
+             and any(isinstance(t_, str) and (t_.startswith("&[u8]") or t_.startswith("&str") or "BytesMut" in t_) for t_ in f.locals[1:1 + f.d["argc"]])]
+    changed = True
+    while changed:
+        changed = False
+        for f in cands:
+            if f.id in out:
+                continue
+            hit = False
+            for g in [f] + prog.children(f):
+                for b, t in g.calls():
+                    if is_callee(t, *SOURCES):
+                        hit = True
+                    c = prog.local_callee(g, t)
+                    if c is not None and c.id in out:
+                        hit = True
+                    if is_callee(t, r"::(checked|wrapping|saturating)_mul$") and any(a.get("c", "").strip().startswith(("const 10", "10_")) for a in t["args"]):
+                        hit = True
+                for b, i, st in g.stmts():
+                    rv = st["rv"]
+                    if rv["k"] == "bin" and rv["op"] in ("Mul", "MulWithOverflow") and any(o.get("c", "").strip().startswith(("const 10", "10_")) for o in (rv["a"], rv["b"])):
+                        hit = True
+            if hit:
+                out.add(f.id)
+                changed = True
+    _derived[key] = out
+    return out
 
 
 class Taint:
     """forward taint of wire-derived integers inside one function; every tainted local keeps its root source sites"""
 
-    def __init__(self, fn):
+    def __init__(self, fn, prog=None):
         self.fn = fn
+        self.prog = prog
+        self.extra_sources = derived_sources(prog) if prog is not None else set()
         self.roots = {}      # local -> set(root ids)
         self.sanitized = set()
         fn_defs = fn.defs()
         for b, t in fn.calls():
-            if is_callee(t, *SOURCES) and "p" not in t["dest"]:
+            if self._is_source(t) and "p" not in t["dest"]:
                 self.roots.setdefault(t["dest"]["l"], set()).add("%s@%d" % (callee(t).rsplit("::", 1)[-1][:20], self._ord(b)))
         changed = True
         while changed:
@@ -81,8 +127,17 @@ class Taint:
                             self.roots.setdefault(t["dest"]["l"], set()).update(r)
                             changed = True
 
+    def _is_source(self, t):
+        if is_callee(t, *SOURCES):
+            return True
+        if self.prog is not None and self.extra_sources:
+            c = self.prog.local_callee(self.fn, t)
+            if c is not None and c.id in self.extra_sources and c.id != self.fn.id:
+                return True
+        return False
+
     def _ord(self, b):
-        sites = sorted(bb for bb, t in self.fn.calls() if is_callee(t, *SOURCES))
+        sites = sorted(bb for bb, t in self.fn.calls() if self._is_source(t))
         return sites.index(b)
 
     def _rv_roots(self, rv):
@@ -173,7 +228,7 @@ def _scope(prog):
 def _taint_rules(ck, prog, cfg):
     n_src = n1 = n2 = n3 = n4 = 0
     for f in _scope(prog):
-        T = Taint(f)
+        T = Taint(f, prog)
         if not T.roots:
             continue
         n_src += len({r for s in T.roots.values() for r in s})
@@ -415,3 +470,62 @@ def _r156(ck, ctx):
                              "a %d-byte scratch buffer is used to format decimal integers: i64::MIN needs 20 characters, so the index "
                              "underflows / goes out of bounds for large negative replies (panic = abort)" % n, f.where(st["ln"]),
                              detail="scratch >= 20 bytes")
+
+
+def _r157(ck, prog, cfg):
+    n = 0
+    for fid in sorted(derived_sources(prog)):
+        f = prog.fns[fid]
+        rt = f.locals[0] if isinstance(f.locals[0], str) else ""
+        m = INTISH.match(rt)
+        signed = m is not None and m.group(2) in ("i64", "i32", "isize")
+        n += 1
+        key = "%s:covers-minimum%s" % (f.short, _tag(cfg))
+        if not signed:
+            ck.ok("R15.7", key, "unsigned result (%s)" % rt)
+            continue
+        # locals that hold an accumulated magnitude: results of checked_mul/checked_add/Mul/Add chains
+        acc = set()
+        for g in [f] + prog.children(f):
+            pass
+        changed = True
+        while changed:
+            changed = False
+            for b, t in f.calls():
+                if "p" in t["dest"]:
+                    continue
+                d = t["dest"]["l"]
+                if d in acc:
+                    continue
+                if is_callee(t, r"::(checked|wrapping|saturating)_(mul|add)$") or \
+                        (is_callee(t, *PASS, r"Option::<.*>::(ok_or_else|ok_or)\b") and any((op_place(a) or {}).get("l") in acc for a in t["args"] if "c" not in a)):
+                    acc.add(d)
+                    changed = True
+            for b, i, st in f.stmts():
+                if "p" in st["lhs"] or st["lhs"]["l"] in acc:
+                    continue
+                rv = st["rv"]
+                ops = []
+                if rv["k"] == "bin" and rv["op"] in ("Mul", "Add", "MulWithOverflow", "AddWithOverflow"):
+                    if rv["op"].startswith("Mul") or any((op_place(o) or {}).get("l") in acc for o in (rv["a"], rv["b"]) if "c" not in o):
+                        acc.add(st["lhs"]["l"])
+                        changed = True
+                elif rv["k"] in ("use", "cast"):
+                    ops = [rv["a"]]
+                for o in ops:
+                    p_ = op_place(o) if "c" not in o else None
+                    if p_ is not None and p_["l"] in acc:
+                        acc.add(st["lhs"]["l"])
+                        changed = True
+        neg = None
+        for b, i, st in f.stmts():
+            rv = st["rv"]
+            if rv["k"] == "un" and rv["op"] == "Neg":
+                p_ = op_place(rv["a"]) if "c" not in rv["a"] else None
+                if p_ is not None and p_["l"] in acc and f.locals[p_["l"]] in ("i64", "i32", "isize"):
+                    neg = st["ln"]
+        ck.check(neg is None, "R15.7", key,
+                 "%s accumulates the magnitude of a signed number in %s and negates it afterwards: the minimum value (e.g. "
+                 "`:-9223372036854775808`), which the encoders emit, is rejected as out of range" % (f.short, rt), f.where(neg),
+                 detail="no negate-after-accumulate")
+    ck.extra.setdefault("derived_sources", sorted(derived_sources(prog)))
